@@ -61,7 +61,77 @@ def run_scenario(prog, fn, P, tier, max_paths, budget, attribute_all=False):
     return explore.explore_parallel(path, max_paths=max_paths, time_budget=budget, workers=workers)
 
 
+def run_featdiff_group(pid, grp, tier, out, repo, work):
+    """C18: the set of observable behaviours (projection of every explored path, exploration
+    WITHOUT partial-order reduction so that the explored sets are comparable) of each feature
+    set must equal that of the default build"""
+    sets = {}
+    notes = []
+    fn = getattr(scenarios, grp["scenario"])
+    for feats in grp["feature_sets"]:
+        key = ",".join(feats) or "default"
+        prog, err, dsecs = load_program(repo, work, feats)
+        name = "mirdiff:%s[%s]" % (grp["scenario"], key)
+        ob = {"engine": "mir", "name": name, "features": feats, "bounds": grp.get("bounds", ""), "encodes": "set of per-component observable traces == the default build's"}
+        if prog is None:
+            out.inconclusive.append("%s: %s" % (name, err))
+            ob["status"] = "inconclusive"
+            out.obligations.append(ob)
+            continue
+        proj = {}
+
+        def path(ex, prog=prog):
+            try:
+                fn(prog, ex, pid, tier)
+            except Violation:
+                pass
+
+        def on_path(ex, proj=proj):
+            pr = getattr(ex, "projection", None)
+            if pr is not None and pr not in proj:
+                proj[pr] = [list(x) for x in ex.full]
+        t0 = time.time()
+        viol, unsup, st = explore.explore(path, max_paths=grp.get("max_paths", 60000), time_budget=grp.get("budget", 200), on_path=on_path, por=False)
+        ob.update(paths=st.paths, mir_steps=st.steps, distinct_behaviours=len(proj))
+        notes.append({"engine": "mir", "features": feats, "paths": st.paths, "mir_steps": st.steps, "smt_queries": st.smt_queries, "distinct_behaviours": len(proj), "wall_s": round(time.time() - t0, 1), "mir_bodies": prog.n_bodies})
+        if unsup:
+            ob["status"] = "inconclusive"
+            out.inconclusive.append("%s: outside the interpreter: %s" % (name, unsup[0][0][:300]))
+        elif st.truncated:
+            ob["status"] = "inconclusive"
+            out.inconclusive.append("%s: exploration budget exhausted after %d paths" % (name, st.paths))
+        else:
+            sets[key] = proj
+            ob["status"] = "discharged"
+            ob["sample_trace"] = jsonable(list(proj.keys())[:1])
+        out.obligations.append(ob)
+    out.notes.extend(notes)
+    base = sets.get("default")
+    if base is None:
+        return
+    for key, proj in sets.items():
+        if key == "default":
+            continue
+        extra = [p for p in proj if p not in base]
+        missing = [p for p in base if p not in proj]
+        if extra or missing:
+            rdir = os.path.join(work, "replays", pid)
+            os.makedirs(rdir, exist_ok=True)
+            rp = os.path.join(rdir, "featdiff_%s.json" % key.replace(",", "-"))
+            wit = extra[0] if extra else missing[0]
+            json.dump({"property": pid, "features": key, "only_with_features": jsonable(extra[:2]), "only_with_default": jsonable(missing[:2]),
+                       "decisions": (proj.get(wit) or base.get(wit)), "replay_cmd": "bin/check %s" % pid}, open(rp, "w"), indent=1)
+            for ob in out.obligations:
+                if ob["name"].endswith("[%s]" % key):
+                    ob["status"] = "violated"
+                    ob["replayed"] = True
+            out.violations.append({"name": "mirdiff[%s]" % key, "replay": rp, "failed_checks": ["behaviour set differs from default features"],
+                                   "detail": "features %s: %d behaviours only with the features, %d only without" % (key, len(extra), len(missing))})
+
+
 def run_group(pid, grp, tier, out, repo, work):
+    if grp.get("kind") == "featdiff":
+        return run_featdiff_group(pid, grp, tier, out, repo, work)
     feats = grp.get("features", [])
     prog, err, dsecs = load_program(repo, work, feats)
     if prog is None:
